@@ -36,6 +36,15 @@
 #include <string.h>
 #include <pthread.h>
 
+#ifdef LIBERASURECODE_VERIF
+/* verification builds only; see include/erasurecode/erasurecode_verif.h */
+#include "erasurecode_verif.h"
+#define pthread_mutex_lock libec_verif_mutex_lock
+#define pthread_mutex_unlock libec_verif_mutex_unlock
+#else
+#define LIBEC_VERIF_YIELD(p) do { } while (0)
+#endif
+
 // We are only implementing w=16 here.  If you want to use something
 // else, then use Jerasure with GF-Complete or ISA-L.
 #define PRIM_POLY 0x1100b
@@ -58,8 +67,10 @@ void rs_galois_init_tables(void)
     pthread_mutex_unlock(&init_mutex);
     return;
   }
+  LIBEC_VERIF_YIELD(LIBEC_VP_GF_INIT_COUNTED);
   log_table = (int*)malloc(sizeof(int)*FIELD_SIZE);
   ilog_table_begin = (int*)malloc(sizeof(int)*FIELD_SIZE*3);
+  LIBEC_VERIF_YIELD(LIBEC_VP_GF_INIT_ALLOCATED);
   int i = 0;
   int x = 1;
 
@@ -74,6 +85,7 @@ void rs_galois_init_tables(void)
     }
   }
   ilog_table = &ilog_table_begin[GROUP_SIZE];
+  LIBEC_VERIF_YIELD(LIBEC_VP_GF_INIT_FILLED);
   pthread_mutex_unlock(&init_mutex);
 }
 
@@ -81,6 +93,7 @@ void rs_galois_deinit_tables(void)
 {
   pthread_mutex_lock(&init_mutex);
   init_counter--;
+  LIBEC_VERIF_YIELD(LIBEC_VP_GF_DEINIT_COUNTED);
   if (init_counter < 0) {
     /* deinit when not initialized?? */
     init_counter = 0;
